@@ -182,7 +182,7 @@ def attempt(ctx, dest, call, case, injector, fired=None):
         raised = None
     except faults.InjectedFault as e:
         raised = e
-    except Exception as e:
+    except BaseException as e:
         raised = e
     early = [p for p, m in w.events if p == fsmon._norm(dest.path) and m and any(c in str(m) for c in 'wa+')]
     if raised is None and fired is not None and fired():
@@ -245,7 +245,9 @@ def run_writer_section(ctx, rng, spec, root):
                     'lua_writer')
         # the type of the exception a writer raises does not matter
         for exc in (IndexError, KeyError, AttributeError, ValueError, TypeError, OSError, RuntimeError, AssertionError, LookupError,
-                    ArithmeticError, NotImplementedError):
+                    ArithmeticError, NotImplementedError,
+                    # (what ends a long minify or compression when the user presses Control-C, or a tool calls sys.exit())
+                    KeyboardInterrupt, SystemExit, GeneratorExit):
             W = faults.failing_writer_cls(base, 1, exc=exc)
             attempt(ctx, dest, lambda: p8file.to_file(g, dest.path, lua_writer_cls=W),
                     {'injector': 'lua_writer', 'base': base.__name__, 'k': 1, 'exc': exc.__name__, 'fmt': spec['fmt'], 'exists': spec['exists']},
